@@ -3,7 +3,7 @@
 cd /verif
 for p in "$@"; do
   for i in 1 2; do
-    [ -f ${SEED_DIR:-/tmp/wt}_$p/_seed/patch$i.diff ] || { echo "$p-$i: no patch" >> build/seed_results.log; continue; }
+    [ -f ${SEED_DIR:-/tmp/wt}_$p/_seed/patch$i.diff ] || { echo "$p-$i: no patch" >> ${SEED_LOG:-build/seed_results.log}; continue; }
     r=$(tools/ingest_seed.py $p $i 2>&1 | python3 -c "
 import sys,json,re
 t=sys.stdin.read()
@@ -13,6 +13,6 @@ try:
 except Exception as e: print('INGEST PROBLEM', t[-300:])
 ")
     j=$((i + ${SEED_OFFSET:-0})); s=$(tools/seedrun.py seeded/$p-$j/patch.diff $p quick 2>&1 | grep exit= | head -1)
-    echo "$p-$j: $r || $s" >> build/seed_results.log
+    echo "$p-$j: $r || $s" >> ${SEED_LOG:-build/seed_results.log}
   done
 done
